@@ -180,6 +180,8 @@ class FCheck(SCheck):
                 chosen.append({"faults": a["faults"] + b["faults"], "_call": a["_call"] + "+" + b["_call"], "_role": a["_role"]})
         for c in chosen:
             p2 = dict(plan)
+            # bounded liveness: after the fault the run must end within a budget derived from the fault-free run
+            p2["max_events"] = 20 * res["stats"]["steps"] + 5000
             if not c.get("faults") and c.get("kill_at") is None:
                 continue
             if "faults" in c:
